@@ -55,7 +55,7 @@ try:
             print("%-60s DOES NOT COMPILE (%d subs) %s" % (name, n, cc.stderr[:100])); continue
         res = []
         for pr in props:
-            r = subprocess.run([os.path.join(V, "check"), pr], capture_output=True, text=True, env=dict(os.environ, SS_REPO=base), cwd=V)
+            r = subprocess.run([os.path.join(V, "check"), pr], capture_output=True, text=True, env=dict(os.environ, SS_REPO=base, SS_EVIDENCE=os.path.join(scratch, "_ev")), cwd=V)
             res.append("%s=%d" % (pr, r.returncode))
             if r.returncode == 1:
                 res.append("[" + "; ".join(l.strip()[:90] for l in r.stdout.splitlines() if l.startswith("  at "))[:300] + "]")
